@@ -675,6 +675,8 @@ func c10Has(list []string, blob string) bool {
 	return false
 }
 
+var c10Marker string // set when the batches run one at a time (Parallel == 1)
+
 func c10RunBatch(mutants []string) (out c10BatchOut) {
 	cp, s := c10Setup()
 	if cp == nil {
@@ -691,6 +693,10 @@ func c10RunBatch(mutants []string) (out c10BatchOut) {
 			continue
 		}
 		msg = c10Exact(msg)
+		if c10Marker != "" {
+			// one batch at a time: name the message being delivered, should the whole process die on it
+			os.WriteFile(c10Marker, []byte(fmt.Sprintf("%d", i)), 0644)
+		}
 		beforeA, beforeB := c10Snapshot(cp.p, "rA"), c10Digest(c10Snapshot(cp.p, "rB"))
 		apps0, runs0 := len(cp.p.apps), len(cp.p.harvests)
 		cn := cp.open()
@@ -932,6 +938,9 @@ func TestVerifC10(t *testing.T) {
 	case "run":
 		if in.Parallel <= 0 {
 			in.Parallel = 8
+		}
+		if in.Parallel == 1 {
+			c10Marker = outPath + ".cur"
 		}
 		res := make([]c10BatchOut, len(in.Batches))
 		sem := make(chan struct{}, in.Parallel)
